@@ -838,6 +838,19 @@ namespace
                     const XV& cxv = xv;
                     if (&xtl::xget<const int&>(cxv) != &xint) viol("model", "xget", "xget<const int&> on a variant holding xclosure_wrapper<int&> designates another object");
                     if (xv.index() != 0) viol("model", "xget", "wrong alternative for a closure of an int lvalue");
+                    // the rvalue forms: a reference closure in a variant that is about to die still designates the referent
+                    {
+                        int& rr = xtl::xget<int&>(std::move(xv));
+                        if (&rr != &xint) viol("model", "xget", "xget<int&> on an rvalue variant does not designate the referent of the closure");
+                        const int& cr = xtl::xget<int&>(std::move(cxv));
+                        if (&cr != &xint) viol("model", "xget", "xget<int&> on a const rvalue variant does not designate the referent of the closure");
+                        const int& cr2 = xtl::xget<const int&>(std::move(xv));
+                        if (&cr2 != &xint) viol("model", "xget", "xget<const int&> on an rvalue variant holding xclosure_wrapper<int&> designates another object");
+                        bool threw = false;
+                        try { (void)xtl::xget<NC>(std::move(xv)); } catch (const xtl::bad_variant_access&) { threw = true; }
+                        if (!threw) viol("model", "xget", "xget<NC> on an rvalue variant holding the int closure did not throw bad_variant_access");
+                        if (xv.index() != 0 || &xtl::xget<int&>(xv) != &xint) viol("model", "xget", "reading through xget on an rvalue variant changed the variant");
+                    }
                     // an alternative that overloads unary &: get_if still hands out the address of the alternative in the variant
                     // (tried on a type of the harness: with xclosure_wrapper itself a get_if that uses unary & does not even compile)
                     {
@@ -896,6 +909,18 @@ namespace
                     xv_live_nc = true;
                     NC& r = xtl::xget<NC>(xv);
                     if (r.id != id || &r != xtl::get_if<2>(&xv)) viol("model", "xget", "xget<NC> does not return the stored value");
+                    // rvalue forms hand out a reference to the stored alternative itself (nothing is moved or copied by the call)
+                    {
+                        uint64_t copies = registry().copies, moves = registry().moves;
+                        NC&& rr = xtl::xget<NC>(std::move(xv));
+                        const XV& cxv = xv;
+                        const NC&& crr = xtl::xget<NC>(std::move(cxv));
+                        if (&rr != xtl::get_if<2>(&xv) || &crr != xtl::get_if<2>(&xv) || rr.id != id) viol("model", "xget", "xget<NC> on an rvalue variant does not designate the stored alternative");
+                        if (registry().copies != copies || registry().moves != moves) viol("model", "xget", "xget<NC> on an rvalue variant copied or moved the alternative");
+                        bool threw = false;
+                        try { (void)xtl::xget<int&>(std::move(xv)); } catch (const xtl::bad_variant_access&) { threw = true; }
+                        if (!threw) viol("model", "xget", "xget<int&> on an rvalue variant holding NC did not throw bad_variant_access");
+                    }
                     lifetimes();
                     check_population();
                     xv_live_nc = false;
